@@ -4,6 +4,7 @@ import (
 	"bytes"
 	"crypto/sha256"
 	"crypto/sha512"
+	"encoding/binary"
 	"fmt"
 	"math/big"
 
@@ -155,6 +156,54 @@ func runTranscript() {
 		a, _ := x25519.X25519(s, x25519.Basepoint)
 		b, errb := x25519.X25519(s, u)
 		obs(fmt.Sprintf("x25519/rnd/%d", i), append(append(a, b...), b2(errb != nil)))
+	}
+	// the array API, and inputs whose correct result is below 19 (the ladder back ends differ in how they leave such values)
+	for c := int64(1); c < 40; c++ {
+		sc, uin, ok := craftResult(r, big.NewInt(c))
+		if !ok {
+			continue
+		}
+		var sm, sb, in, pt [32]byte
+		copy(in[:], sc)
+		copy(pt[:], uin)
+		x25519.ScalarMult(&sm, &in, &pt)
+		x25519.ScalarBaseMult(&sb, &in)
+		b, errb := x25519.X25519(sc, uin)
+		obs(fmt.Sprintf("x25519/small/%d", c), append(append(append(sm[:], sb[:]...), b...), b2(errb != nil)))
+	}
+	for i := 0; i < n; i++ {
+		var sm, sb, in, pt [32]byte
+		copy(in[:], r.Bytes(32))
+		copy(pt[:], r.Bytes(32))
+		x25519.ScalarMult(&sm, &in, &pt)
+		x25519.ScalarBaseMult(&sb, &in)
+		obs(fmt.Sprintf("x25519/array/%d", i), append(sm[:], sb[:]...))
+	}
+	// S < L decided word by word: S = L with one 32-bit word replaced, and 2^252 + w 2^(32 j); the verdict of the library's
+	// own range test and of ZIP-215 verification of (identity key, R = [S]B, S), which is valid exactly when S < L
+	idKey := ed25519.PublicKey(append([]byte{1}, make([]byte, 31)...))
+	for j := 0; j < 8; j++ {
+		for wi, w := range []uint32{0, 1, 0x7fffffff, 0x80000000, 0xfffffffe, 0xffffffff} {
+			for base := 0; base < 2; base++ {
+				var S *big.Int
+				if base == 0 {
+					b := refmodel.LE(refmodel.L, 32)
+					binary.LittleEndian.PutUint32(b[4*j:], w)
+					S = refmodel.FromLE(b)
+				} else {
+					S = new(big.Int).Add(new(big.Int).Lsh(big.NewInt(1), 252), new(big.Int).Lsh(new(big.Int).SetUint64(uint64(w)), uint(32*j)))
+				}
+				if S.BitLen() > 256 {
+					continue
+				}
+				sb := refmodel.LE(S, 32)
+				R := refmodel.BaseMul(new(big.Int).Mod(S, refmodel.L)).Encode()
+				sig := append(append([]byte{}, R[:]...), sb...)
+				v := []byte{b2(ed25519.VerifScMinimal(sb)), b2(sVerifyOpts(tr, idKey, []byte("m"), sig, &ed25519.Options{ZIP215Verify: true})),
+					b2(sVerifyOpts(tr, idKey, []byte("m"), sig, &ed25519.Options{}))}
+				obs(fmt.Sprintf("scminimal/%d/%d/%d", j, wi, base), v)
+			}
+		}
 	}
 	// internal layers: canonical outputs must not depend on the limb layout / selector / conditional move
 	for i := 0; i < n; i++ {
